@@ -321,6 +321,85 @@ def run(ctx):
     _core.run_proxied(ctx, _c10, 'R02s', ('R10g',))
     _core.run_proxied(ctx, _c11, 'R02t', ('R11b',))
 
+    # ---- R02u: a specials token counts as marker characters
+    ctx.rule('R02u', 'LatexOptionalCharsMarkerParser: a token of kind specials is read as marker characters: on no feasible '
+                     'path of the reading loop does a specials token leave the loop before its characters were added to the '
+                     'text compared with the marker list (path conditions evaluated with tok.tok = \'specials\')', 1)
+    om = repo.mod('pylatexenc.latexnodes.parsers._optionals')
+    ps = om.functions.get('LatexOptionalCharsMarkerParser._parse_single')
+    lps = [l for l in iter_own(ps) if isinstance(l, ast.While)] if ps is not None else []
+    if not lps:
+        ctx.unknown('R02u', om, ps, 'reading loop of the chars-marker parser not found', construct='chars marker: specials')
+    else:
+        lp = lps[0]
+        toks = [t_.targets[0].id for t_ in iter_own(lp) if isinstance(t_, ast.Assign) and isinstance(t_.value, ast.Call)
+                and call_name(t_.value) == 'next_token' and isinstance(t_.targets[0], ast.Name)]
+        accs = [a_ for a_ in iter_own(lp) if isinstance(a_, ast.AugAssign) and isinstance(a_.op, ast.Add)
+                and isinstance(a_.target, ast.Name)]
+        # the accumulator is the name compared with the marker list
+        cmpn = {c_.left.id for c_ in iter_own(lp) if isinstance(c_, ast.Compare) and isinstance(c_.left, ast.Name)
+                and isinstance(c_.ops[0], ast.In) and 'chars_list' in unparse(c_.comparators[0])}
+        accs = [a_ for a_ in accs if a_.target.id in cmpn and not isinstance(a_.value, ast.Constant)]
+        if not toks or not accs:
+            ctx.unknown('R02u', om, lp, 'token variable or accumulation not found', construct='chars marker: specials')
+        else:
+            tk = toks[0]
+            acc_line = min(a_.lineno for a_ in accs)
+            try:
+                lcs = symex.Walker(want_exits=True, track_attrs=(tk + '.tok', tk + '.arg')).run_block(lp.body)
+            except symex.TooManyPaths as e:
+                lcs = None
+                ctx.unknown('R02u', om, lp, str(e), construct='chars marker: specials')
+            if lcs is not None:
+                bad = None
+                n_early = 0
+                for cs in lcs:
+                    if cs.kind not in ('break', 'continue') or cs.node.lineno > acc_line:
+                        continue
+                    # only paths on which a token was read
+                    if not any(tk + '.' in t_ for t_ in cs.cond_src()):
+                        continue
+                    n_early += 1
+                    if not symex.infeasible(cs.conds, {tk + '.tok': 'specials'}) and bad is None:
+                        bad = cs
+                ctx.decide('R02u', bad is None and n_early > 0, om, bad.node if bad else lp,
+                           'no early exit of the loop is feasible for a specials token (%d early exit path(s) examined)' % n_early,
+                           'with %s.tok == \'specials\' the path [%s] leaves the loop before the token\'s characters are added: '
+                           'a marker character that the context also declares as specials (~, &) is reported absent and turns up '
+                           'as a separate node or as the next argument' % (tk, ' & '.join(bad.cond_src())[-150:] if bad else ''),
+                           construct='chars marker: specials')
+
+    # ---- R02v: one notion of white space
+    ctx.rule('R02v', 'code of the parser layer that looks at a raw source character to decide "is this white space" uses '
+                     'str.isspace(), like the token reader: a comparison with a literal of blanks that lacks the newline makes a '
+                     'line break count as "no space" (an optional argument is then read across a line break where the reader '
+                     'and the other parsers see space)', 3)
+    n_ws = 0
+    for mod_ in sorted(repo.modules.values(), key=lambda m_: m_.name):
+        if not mod_.name.startswith(('pylatexenc.macrospec', 'pylatexenc.latexnodes._tokenreader', 'pylatexenc.latexnodes.parsers',
+                                     'pylatexenc.latexwalker._walker', 'pylatexenc.latexwalker._legacy')):
+            continue
+        for q_, f_ in sorted(mod_.functions.items()):
+            srcnames = {t_.targets[0].id for t_ in iter_own(f_) if isinstance(t_, ast.Assign) and len(t_.targets) == 1
+                        and isinstance(t_.targets[0], ast.Name) and _is_source_char(t_.value)}
+            for c_ in iter_own(f_):
+                if isinstance(c_, ast.Call) and isinstance(c_.func, ast.Attribute) and c_.func.attr == 'isspace' and (
+                        _is_source_char(c_.func.value) or (isinstance(c_.func.value, ast.Name) and c_.func.value.id in srcnames)):
+                    n_ws += 1
+                    ctx.holds('R02v', mod_, c_, 'white space decided by isspace()', construct='%s: %s' % (q_, short(c_, 40)))
+                elif isinstance(c_, ast.Compare) and len(c_.ops) == 1 and isinstance(c_.comparators[0], ast.Constant) and \
+                        isinstance(c_.comparators[0].value, str) and c_.comparators[0].value and \
+                        not c_.comparators[0].value.strip() and isinstance(c_.ops[0], (ast.In, ast.NotIn, ast.Eq, ast.NotEq)) and (
+                        _is_source_char(c_.left) or (isinstance(c_.left, ast.Name) and c_.left.id in srcnames)):
+                    n_ws += 1
+                    lit = c_.comparators[0].value
+                    ctx.decide('R02v', '\n' in lit and ' ' in lit and '\t' in lit, mod_, c_,
+                               'literal white-space class with blank, tab and newline',
+                               '%s decides white space by %s: the class %r lacks %s, so that character after a macro counts as '
+                               '"no space here" although the token reader (isspace) treats it as space: an optional argument is '
+                               'read across it' % (q_, short(c_, 40), lit, 'the newline' if '\n' not in lit else 'blank or tab'),
+                               construct='%s: %s' % (q_, short(c_, 40)))
+
     return 'other', (
         'Decides the dispatch skeleton of the parser: every token kind the reader emits has a '
         'handler, every standard argument letter builds the parser of its kind and optionality, one '
@@ -999,3 +1078,9 @@ def _verbatim_nesting(ctx, repo):
                'delimited verbatim argument: %s: a bracket of another kind inside the argument changes the nesting '
                'depth and the argument never closes (or closes early)' % (bad[1] if bad else 'no path changes the depth'),
                construct='verbatim nesting')
+
+
+def _is_source_char(e):
+    """`<x>.s[i]` / `s[i]` -- one character of the source string"""
+    return isinstance(e, ast.Subscript) and not isinstance(e.slice, ast.Slice) and (
+        (isinstance(e.value, ast.Attribute) and e.value.attr == 's') or (isinstance(e.value, ast.Name) and e.value.id == 's'))
